@@ -1,5 +1,45 @@
-//! Smaller harness families (serial output, header, debugger strings, video leaf functions).
+//! Smaller harness families: serial output (C18), cartridge header (C19), debugger strings (C20), video leaf functions (C15).
 #[cfg(all(kani, feature = "h_misc"))]
-mod harnesses {
-  include!(concat!(env!("CARGO_MANIFEST_DIR"), "/gen/misc_gen.rs"));
+pub mod harnesses {
+  use std::io::{self, Write};
+
+  // ------------------------------------------------------------------ C18: what SerialComms::set_control emits
+  static mut OUT: [u8; 4] = [0; 4];
+  static mut NOUT: usize = 0;
+  static mut NFLUSH: usize = 0;
+  fn stub_write(_s: &mut io::Stdout, buf: &[u8]) -> io::Result<usize> {
+    unsafe { let mut i = 0; while i < buf.len() { if NOUT < 4 { OUT[NOUT] = buf[i]; } NOUT += 1; i += 1; } }
+    Ok(buf.len())
+  }
+  fn stub_flush(_s: &mut io::Stdout) -> io::Result<()> { unsafe { NFLUSH += 1; } Ok(()) }
+  /// io::stdout() itself (OnceLock + reentrant mutex) is irrelevant to the property and very expensive for CBMC: the
+  /// handle is never dereferenced once write/flush are stubbed, so a dummy handle stands in for it.
+  fn stub_stdout() -> io::Stdout { unsafe { core::mem::transmute::<usize, io::Stdout>(0x1000) } }
+
+  #[kani::proof]
+  #[kani::stub(<std::io::Stdout as std::io::Write>::write, stub_write)]
+  #[kani::stub(<std::io::Stdout as std::io::Write>::flush, stub_flush)]
+  #[kani::stub(std::io::stdout, stub_stdout)]
+  fn serial_set_control() {
+    let mut s = crate::devices::serial::SerialComms::new();
+    let d0: u8 = kani::any(); let c0: u8 = kani::any();
+    // arbitrary reachable state: any latch, any previous control value (bit 7 clear so that nothing was emitted yet)
+    s.set_data(d0);
+    s.set_control(c0 & 0x7f);
+    let emitted_before = unsafe { NOUT };
+    let d: u8 = kani::any();
+    s.set_data(d);                       // writing the data register alone emits nothing
+    let after_data = unsafe { NOUT };
+    let v: u8 = kani::any();
+    s.set_control(v);
+    let (n, first) = unsafe { (NOUT, OUT[0]) };
+    let sel: u8 = kani::any();
+    match sel {
+      0 => assert!(emitted_before == 0, "C18: a control write with bit 7 clear emits nothing"),
+      1 => assert!(after_data == emitted_before, "C18: a data write emits nothing"),
+      2 => assert!(if v & 0x80 != 0 { n == 1 && first == d } else { n == 0 }, "C18: bit 7 set emits exactly the latched byte, bit 7 clear emits nothing"),
+      3 => assert!(s.get_control() == v && s.get_data() == d, "C18: SC/SB hold the written values"),
+      _ => { kani::cover!(true, "reachable"); },
+    }
+  }
 }
